@@ -439,20 +439,28 @@ def monotone(pairs):
 
 
 def eval_resguess(ctx, case):
-    from gaddlemaps._alignment import guess_residue_restrains, _split_list
+    from gaddlemaps._alignment import guess_residue_restrains
+    try:
+        # a PRIVATE helper: compared with the model only while it exists under this name (an internal redesign that
+        # computes the chunk bounds another way — benign change C10-2 — takes this comparison away, nothing else)
+        from gaddlemaps._alignment import _split_list
+    except ImportError:
+        _split_list = None
+        ctx.count("private-helper-not-compared:_split_list")
     l1, l2, o1, o2 = case["l1"], case["l2"], case["o1"], case["o2"]
     n = min(l1, l2)
     ctx.case(case, nontrivial=n > 1)
     ctx.count("resguess")
     pairs = [(int(a), int(b)) for a, b in guess_residue_restrains(_residue(l1), _residue(l2), o1, o2)]
     big = max(l1, l2)
-    groups = [list(g) for g in _split_list(list(range(big)), n)]
+    groups = [list(g) for g in _split_list(list(range(big)), n)] if _split_list is not None else None
     fails = []
     ctx.oracle_ok(6)
-    if len(groups) != n or any(not g for g in groups):
-        fails.append("split:empty-or-missing-group")
-    if [x for g in groups for x in g] != list(range(big)):
-        fails.append("split:not-a-contiguous-partition")
+    if groups is not None:
+        if len(groups) != n or any(not g for g in groups):
+            fails.append("split:empty-or-missing-group")
+        if [x for g in groups for x in g] != list(range(big)):
+            fails.append("split:not-a-contiguous-partition")
     if {a for a, _ in pairs} != set(range(o1, o1 + l1)) or {b for _, b in pairs} != set(range(o2, o2 + l2)):
         fails.append("resguess:atoms-without-partner-or-out-of-range")
     if pairs != sorted(set(pairs)):
@@ -473,7 +481,8 @@ def eval_resguess(ctx, case):
         m = [t.ints() for _ in range(t.int())]
         if status != "ok" or m != groups:
             ctx.disagree(case, "_split_list", groups, m)
-    ctx.model.ask("c10_split", f"{big} {n}", cb2, case)
+    if groups is not None:
+        ctx.model.ask("c10_split", f"{big} {n}", cb2, case)
 
 
 def res_index(mol):
